@@ -21,6 +21,7 @@ func init() {
 			"H1 the set of bytes appendShellSafeQuote escapes with a backslash (extracted from the comparisons in its code) is a superset of the bytes POSIX sh treats specially inside double quotes ($ ` \" \\), the value is wrapped in double quotes and every other byte is copied; no run of the input is copied verbatim past the switch unless the guards dominating the copy (strings.ContainsAny/IndexAny/IndexByte… with constant needles, also through a helper) exclude all four bytes, " +
 			"H2 in formatArgs every argv element, the command and every environment value reach the result only through appendShellSafeQuote; in jobScript STDOUT/STDERR/JOB_WORKDIR are shellSafeQuote results and CMD is the formatArgs result; the substitution is a single pass (no replacement call scans the result of an earlier replacement), " +
 			"H3 in every jobmanagers/*.template* the __MRO_CMD__ placeholder stands in command position, outside quotes and outside # directives. " +
+			"H2 also: text derived from a substitution result (through Split/Join/Trim, elements, local cells) is never searched with a non-constant or placeholder needle. " +
 			"NOT decided: invalid UTF-8 bytes (written as \\ooo, a documented extension), JOB_NAME/RESOURCES, each cluster's directive parser.",
 		Assumptions: append([]string{"POSIX XCU 2.2.3: inside double quotes exactly $, `, \" and \\ (and newline after \\) keep a special meaning"}, commonAssumptions...),
 	}
